@@ -517,8 +517,8 @@ def main(chk: Check):
     # for the real spawn run first, inside a wall-clock box (with a guaranteed minimum); what does
     # not fit goes through the in-process stand-in.  The set of cases never depends on the clock.
     import time
-    box = 420.0 if chk.thorough else (45.0 if chk.fingerprint_changed else 15.0)
-    floor = 400 if chk.thorough else 30
+    box = 300.0 if chk.thorough else (45.0 if chk.fingerprint_changed else 15.0)
+    floor = 400 if chk.thorough else 12
     t_real0 = time.time()
     plan.sort(key=lambda cr: not cr[1])
     cases, runs, n_real = [], [], 0
